@@ -5,10 +5,12 @@ Engine P.  Sections:
                     radians} x {Segment, Segment(array), Segment.geodesic(), Geodesic (ideal pairs)}:
                     ideal endpoints, centre/radius, angles (arc sampled at 9 parameters)
   pairs-H3/H4       the same without angles (sphere_parameters), n = 3, 4
+  close-pairs       interior pairs at Klein separation 1e-3, 1e-5, 1e-7 around 12 lattice points (n = 2..4); keys carry /close-endpoints
   limits            exact / near diameters (Poincare) and exact / near vertical lines (half-space)
   horospheres       all (centre in I_n, reference in P_n), n = 2..4, both models
   horosphere-arcs   HorosphereArc.circle_parameters (n = 2), single and composite layout
-  subspaces         Subspace(ideal basis) for all (k+1)-subsets of I_n, k = 1..n-1, and Hyperplane(normal)
+  subspaces         Subspace(ideal basis) for all (k+1)-subsets of I_n, k = 1..n-1, and Hyperplane(normal): sphere_parameters
+                    in both models, boundary_sphere_parameters (the sphere in the boundary of the half-space model)
 
 Oracle: mc/oracle/circles.py (chords and flats of the Klein ball) + mc/oracle/hyp.py (point maps and
 closed-form metrics of the models).  Coordinates of the *inputs* in the conformal models are always
@@ -71,7 +73,20 @@ def _build(H, cls, A, B):
     raise ValueError(cls)
 
 
+CLOSE = 1e-2          # endpoints closer than this (Klein coordinates) are the input class "close-endpoints"
+
+
 def case_pair(case):
+    r = _case_pair(case)
+    if float(np.linalg.norm(np.array(case["b"], dtype=float) - np.array(case["a"], dtype=float))) < CLOSE:
+        for x in r["v"]:
+            x["key"] += "/close-endpoints"
+        if "o" in r:
+            r["o"] = "close|" + r["o"]
+    return r
+
+
+def _case_pair(case):
     from geometry_tools import hyperbolic as H
     n, model, deg, cls = case["n"], case["model"], case["deg"], case["cls"]
     A = np.array(case["a"], dtype=float)
@@ -87,9 +102,12 @@ def case_pair(case):
     if ib.shape != (2, n + 1):
         return {"v": [_V(name + "/ideal_endpoints/shape", "ideal basis has shape %r" % (ib.shape,))], "t": t}
     q = np.abs(hyp.mink(ib, ib)) / np.sum(ib * ib, axis=-1)
-    # conditioning: the quadratic formula on the difference of the endpoints leaves a null-cone residual of
-    # ~2 eps / |A-B|^2 (measured on 12000 random pairs with |A-B| from 1e-2 to 1e-6); 1e-9 covers |A-B| >= 1e-3
-    tolq = max(1e-9, 32 * np.finfo(float).eps / float((B - A) @ (B - A)))
+    # conditioning: the endpoints determine their line to eps / |A-B|, and so the null vectors of their span: a
+    # null-cone residual of <= 12 eps / |A-B| was measured (9600 random pairs with |A-B| from 1e-1 to 1e-8, n = 2..4)
+    # once the discriminant of the quadratic is evaluated without cancellation; 1e-9 covers |A-B| >= 2e-5
+    dAB = float(np.linalg.norm(B - A))
+    EPS = float(np.finfo(float).eps)
+    tolq = max(1e-9, 128 * EPS / dAB)
     if not (_finite(ib) and np.all(q <= tolq)):
         v.append(_V(name + "/ideal_endpoints/not-lightlike",
                     "%s(%s,%s): ideal basis %s has relative Minkowski norms %s" % (cls, _f(A), _f(B), _f(ib), _f(q))))
@@ -97,12 +115,12 @@ def case_pair(case):
     kl = np.asarray(obj.ideal_endpoint_coords("klein") if is_seg else obj.ideal_basis_coords("klein"), dtype=float)
     t += 1
     res = max(orc.line_residual(kl[i], A, B)[0] for i in range(2))
-    if not res <= 1e-8:
+    if not res <= max(1e-8, 128 * EPS / dAB):
         v.append(_V(name + "/ideal_endpoints/not-collinear",
                     "%s(%s,%s): ideal endpoints %s are %.3g off the Klein line through the endpoints" % (cls, _f(A), _f(B), _f(kl), res)))
     match = min(max(np.linalg.norm(kl[0] - ea), np.linalg.norm(kl[1] - eb)),
                 max(np.linalg.norm(kl[0] - eb), np.linalg.norm(kl[1] - ea)))
-    if not match <= 1e-7:
+    if not match <= max(1e-7, 256 * EPS / dAB):
         v.append(_V(name + "/ideal_endpoints/not-the-two-ends",
                     "%s(%s,%s): ideal endpoints %s, the chord meets the sphere at %s, %s" % (cls, _f(A), _f(B), _f(kl), _f(ea), _f(eb))))
     if is_seg:
@@ -114,21 +132,22 @@ def case_pair(case):
         return {"v": v, "t": t, "o": "bad-ideal", "nt": True}
 
     # ---- classification by the oracle ------------------------------------------------------
-    # conditioning: the ideal endpoints come out of the quadratic formula null to ~eps (2/|A-B|)^2, and their
-    # conformal coordinates take the square root of that: sqrt-eps class times 1/|A-B|
-    cond = max(1.0, 1.0 / float(np.linalg.norm(B - A)))
+    # conditioning: the ideal endpoints are null to ~eps / |A-B| (above).  The Poincare circle comes from the Klein
+    # midpoint of the ideal endpoints (error eps / |A-B|: measured <= 6 eps (1+V) / |A-B|); the half-space circle from
+    # the half-space coordinates of the ideal endpoints, which take the square root of the null-cone residual
+    # (measured <= 0.4 sqrt(eps / |A-B|) (1+V)^2).  The sqrt-eps class 1e-6 covers |A-B| >= 2e-7 resp. 1.4e-2.
     e1 = orc.infinity(n)
     if model == "poincare":
         d0 = orc.line_origin_dist(A, B)
         exact = d0 <= 1e-12
         V = float("inf") if exact else 1.0 / d0
-        tol = TAU * (1.0 + V) * cond
+        tol = (1.0 + V) * max(TAU, 1e3 * EPS / dAB)
         klass = "diameter" if exact else ("near-diameter" if V > 50 else "generic")
     else:
         ang = min(orc.angle_between(ea, e1), orc.angle_between(eb, e1))
         exact = ang <= 1e-9
         V = float("inf") if exact else _hs_scale(n, [ea, eb])
-        tol = TAU * (1.0 + V) ** 2 * cond
+        tol = (1.0 + V) ** 2 * max(TAU, 8.0 * math.sqrt(EPS / dAB))
         klass = "vertical" if exact else ("near-vertical" if ang < INF_MARGIN else "generic")
 
     if n == 2:
@@ -192,6 +211,10 @@ def case_pair(case):
         if th.shape != (2,) or not _finite(th):
             v.append(_V("%s/angles/%s/shape" % (name, model), "%s: angles %r" % (where, th)))
             return {"v": v, "t": t}
+        if not is_seg:
+            # the arc of a geodesic ends at the conformal coordinates of its ideal endpoints, which carry the square root
+            # of their null-cone residual eps/|A-B| in the Poincare model as well (measured 0.9 sqrt(eps/|A-B|))
+            tol = max(tol, (1.0 + V) ** (1 if model == "poincare" else 2) * 8.0 * math.sqrt(EPS / dAB))
         if deg:
             th = th * math.pi / 180.0
         delta = orc.ccw_delta(th[0], th[1])
@@ -406,6 +429,27 @@ def case_subspace(case):
     worst = max(abs(np.linalg.norm(hyp.klein_to(model, e) - c) - r) for e in ideal)
     if not worst <= tol:
         v.append(_V(key, "%s: centre %s radius %.9g: an ideal point of the subspace is %.3g off the sphere (tol %.2g)" % (where, _f(c), r, worst, tol)))
+    if model == "halfspace":
+        # the sphere reported in the boundary R^(n-1) of the half-space model (docstring: the (k-1)-sphere that is the ideal
+        # boundary of the k-dimensional subspace): it contains the boundary coordinates of the subspace's ideal points
+        from geometry_tools import GeometryError
+        bkey = "subspace/boundary_sphere_parameters/%s" % ("k=n-1" if k == n - 1 else "k<n-1")
+        t += 1
+        try:
+            bc, br = obj.boundary_sphere_parameters()
+        except GeometryError as e:
+            if "unique sphere through" not in str(e):
+                raise
+            v.append(_V(bkey, "%s: boundary_sphere_parameters() raises GeometryError: %s" % (where, e)))
+            bc = None
+        if bc is not None:
+            bc = np.asarray(bc, dtype=float)
+            if bc.shape != (n - 1,) or np.ndim(br) != 0 or not (_finite(bc) and math.isfinite(float(br))):
+                v.append(_V(bkey, "%s: boundary_sphere_parameters() = centre %r radius %r" % (where, bc, br)))
+            else:
+                bw = max(abs(np.linalg.norm(hyp.klein_to(model, e)[:-1] - bc) - float(br)) for e in ideal)
+                if not bw <= tol:
+                    v.append(_V(bkey, "%s: boundary sphere centre %s radius %.9g: an ideal point of the subspace is %.3g off it (tol %.2g)" % (where, _f(bc), float(br), bw, tol)))
     return {"v": v, "t": t, "o": "%s|k%d|%s|%.1f" % (model, k, cls, min(r, 99.0)), "nt": True}
 
 
@@ -696,6 +740,28 @@ def pair_cases(n, q, seed):
                     yield {"n": n, "a": a, "b": b, "model": model, "deg": deg, "cls": cls}
 
 
+SEPARATIONS = [1e-3, 1e-5, 1e-7]
+
+
+def close_pair_cases(n, seed):
+    """Pairs of interior points at Klein separation 1e-3, 1e-5, 1e-7 around the first 12 lattice points (the corner
+    points and 4 generic ones), in 2 generic directions each, in both orders."""
+    P, I = _alphabet(n, False, seed)
+    for i, a in enumerate(P[:12]):
+        for kdir in range(2):
+            u = lattice.generic_dir(n, 80 + 2 * i + kdir, seed)
+            for d in SEPARATIONS:
+                b = a + d * u
+                if not float(b @ b) < 0.995:
+                    b = a - d * u
+                A, B = list(map(float, a)), list(map(float, b))
+                for x, y in ((A, B), (B, A)):
+                    for model in MODELS:
+                        for cls in ("Segment", "Segment(array)", "Segment.geodesic"):
+                            for deg in ((True, False) if n == 2 else (False,)):
+                                yield {"n": n, "a": x, "b": y, "model": model, "deg": deg, "cls": cls}
+
+
 def limit_cases(q, seed):
     """exact and near straight-line limits that the lattice does not contain by itself."""
     for n in (2, 3):
@@ -856,9 +922,17 @@ def run(ctx):
     ctx.assume("HorosphereArc endpoints lie on one horosphere (second endpoint constructed by the oracle on the Poincare horocircle), "
                ">= 0.3 rad away from the ideal centre")
     ctx.assume("Poincare subspaces through the origin may report a non-finite radius (flat limit)")
-    ctx.tolerances["ideal endpoints (Klein)"] = "1e-8 collinearity, 1e-7 against the oracle chord ends, max(1e-9, 32 eps / |A-B|^2) relative Minkowski norm (the library residual scales as 2 eps/|A-B|^2): projective data, no square-root cancellation beyond the quadratic formula"
-    ctx.tolerances["poincare circle"] = "1e-6 (1+V) max(1, 1/|A-B|), V = 1/dist(origin, Klein line) ~ |centre|: sqrt-eps class (Poincare coordinates of ideal points carry 1e-8), scaled by the size of the circle"
-    ctx.tolerances["halfspace circle"] = "1e-6 (1+V)^2 max(1, 1/|A-B|), V = max half-space coordinate of the ideal endpoints: DESIGN section 4 sqrt-eps class"
+    ctx.assume("boundary_sphere_parameters (the sphere in the boundary R^(n-1) of the half-space model) is 'the sphere reported for a totally geodesic subspace': "
+               "it must contain the boundary coordinates of the subspace's ideal points, for every k = 1..n-1 (its docstring: the (k-1)-sphere of a k-dimensional subspace); "
+               "same tolerance as the half-space sphere")
+    ctx.tolerances["ideal endpoints (Klein)"] = ("relative Minkowski norm max(1e-9, 128 eps/|A-B|), collinearity max(1e-8, 128 eps/|A-B|), against the oracle chord ends "
+                                                 "max(1e-7, 256 eps/|A-B|): two points determine their line to eps/|A-B|; measured on the library with a cancellation-free "
+                                                 "discriminant: residual <= 12 eps/|A-B| for |A-B| = 1e-1 .. 1e-8 (the quadratic formula on Minkowski products of size 1 gave 2 eps/|A-B|^2)")
+    ctx.tolerances["poincare circle"] = ("(1+V) max(1e-6, 1e3 eps/|A-B|), V = 1/dist(origin, Klein line) ~ |centre|: sqrt-eps class (Poincare coordinates of ideal points carry 1e-8), "
+                                         "scaled by the size of the circle; measured <= 6 eps (1+V)/|A-B| for close endpoints")
+    ctx.tolerances["halfspace circle"] = ("(1+V)^2 max(1e-6, 8 sqrt(eps/|A-B|)), V = max half-space coordinate of the ideal endpoints: DESIGN section 4 sqrt-eps class; the centre is computed from "
+                                          "the half-space coordinates of the ideal endpoints, i.e. from the square root of their null-cone residual eps/|A-B|: measured <= 0.4 sqrt(eps/|A-B|) (1+V)^2")
+    ctx.tolerances["arc ends of a geodesic"] = "the circle tolerance, at least (1+V)^(1|2) 8 sqrt(eps/|A-B|): conformal coordinates of ideal endpoints that are null to eps/|A-B|"
     ctx.tolerances["arc on segment"] = "Klein collinearity and betweenness at the circle tolerance; |d(A,x)+d(x,B)-d(A,B)| <= 1e-6 (1+d)^2 in the model's closed-form metric"
     ctx.tolerances["straight-line limit"] = "radius NaN/inf or > 1e6 (drawtools switches to a straight line on isnan or r > 80)"
     dom = {"P_n": "corner + %s generic Klein points" % ("6" if q else "30 (n=2) / 16"), "I_n": "axis, diagonal and %s generic ideal directions" % ("4" if q else "12 (n=2) / 8"),
@@ -871,6 +945,13 @@ def run(ctx):
         if want("pairs-H%d" % n):
             cases = list(pair_cases(n, q, seed))
             ctx.product("pairs-H%d" % n, "checks.c14:case_pair", cases, chunk=64, domains=dom)
+    if want("close-pairs"):
+        cases = [c for n in (2, 3, 4) for c in close_pair_cases(n, seed)]
+        ctx.product("close-pairs", "checks.c14:case_pair", cases, chunk=64,
+                    domains={"n": [2, 3, 4], "first endpoint": "the first 12 points of P_n (corner points and 4 generic ones)",
+                             "second endpoint": "first + d u, d in %s, u 2 generic directions per point; both orders" % SEPARATIONS,
+                             "models": MODELS, "classes": ["Segment", "Segment(array)", "Segment.geodesic"],
+                             "keys": "the keys of the pairs sections with the suffix /close-endpoints"})
     if want("composite"):
         ctx.product("composite-segments", "checks.c14:case_composite", list(composite_cases(q, seed)), chunk=8,
                     domains={"n": [2, 3] if q else [2, 3, 4], "shapes": [[6], [2, 3], [2, 1, 2], [1]], "pairs": "consecutive blocks of all ordered pairs of 12 lattice points",
@@ -900,4 +981,5 @@ def run(ctx):
                              "oracle": "the single arc's answer for each unit (section horosphere-arcs)"})
     if want("subspaces"):
         ctx.product("subspaces", "checks.c14:case_subspace", list(subspace_cases(q, seed)), chunk=64,
-                    domains={"n": [2, 3, 4], "k": "1..n-1", "basis": "all (k+1)-subsets of I_n", "hyperplane normals": sum(len(x) for x in NORMALS.values())})
+                    domains={"n": [2, 3, 4], "k": "1..n-1", "basis": "all (k+1)-subsets of I_n", "hyperplane normals": sum(len(x) for x in NORMALS.values()),
+                             "calls": ["sphere_parameters(model)", "boundary_sphere_parameters() (half-space cases)"]})
